@@ -7,9 +7,9 @@ CONSTANTS
   Payloads = {"p1", "p2", "p3", "p4", "p5", "p6"}
   Auto = {"l1", "l2"}
   QCap = 10
-  GenLen = 24
-  MaxOutages = 0
-INIT GInit
+  GenLen = 28
+  MaxOutages = 2
+INIT GInitOut
 NEXT GNext
 INVARIANT Emit
 CHECK_DEADLOCK FALSE
